@@ -148,7 +148,7 @@ def make_world(g, tag):
             if p in CONTAINERS:
                 mts.append(docs.any_matcher([p], r.choice([None, '"MASK"'])))
             elif (p in changed and docs.go_type(va) and docs.go_type(vb) and docs.go_type(va) != docs.go_type(vb)
-                  and not hash_path and r.random() < 0.6):
+                  and not hash_path and not any(p.startswith(m_ + '.') for m_ in masked if m_ != p) and r.random() < 0.6):
                 # match.Type[any] accepts both variants, but its placeholder names the value's OWN type: a value that
                 # changed its type (string -> number) is a visible change
                 mts.append(docs.type_matcher([p], 'any'))
